@@ -181,7 +181,9 @@ def run_perc(case):
     orc = Oracle()
     try:
         if case["mode"][0] == "tree":
+            trails = []
             for val, trail, _w in orc.enumerate(lambda: gcmpy.bond_percolate(G, phi), grid=b, max_leaves=case.get("max_leaves", 70000)):
+                trails.append((val, [t[2] for t in trail]))
                 n, ok = decode(val, N)
                 draws = [t[2] for t in trail if t[0] == "r"]
                 if len(draws) != len(es):
@@ -189,6 +191,23 @@ def run_perc(case):
                     draws = (draws + [0] * len(es))[:len(es)]
                 tr["leaves"].append({"draws": draws, "n": n, "ok": bool(ok)})
             tr["exhaustive"] = len(tr["leaves"]) == b ** len(es)
+            # the grid enumeration is exact only if the code uses each uniform draw solely through comparisons with multiples
+            # of 1/b: replay leaves with the draws moved to both ends of their cells; any difference -> the law is not decided
+            if 0 < a < b and trails:
+                step = max(1, len(trails) // 40)
+                for (val0, plan) in trails[::step]:
+                    for cell in (0.002, 0.998):
+                        o2 = Oracle(); o2.cell = cell
+                        try:
+                            v2 = o2.run_directed(plan, lambda: gcmpy.bond_percolate(G, phi), grid=b)
+                        except OracleMismatch:
+                            v2 = None
+                        if v2 != val0:
+                            tr["undecided"] = "the result depends on the uniform draws beyond comparisons with multiples of 1/%d (e.g. log / inverse transforms): the aligned grid does not represent the law" % b
+                            break
+                    if tr.get("undecided"):
+                        tr["leaves"], tr["exhaustive"] = [], False
+                        break
             if es and 0 < a < b and len(tr["leaves"]) == 1 and not tr["draws_known"]:
                 # no draw reached the random module: not enumerable unless the helper is deterministic
                 vals = {gcmpy.bond_percolate(G, phi) for _ in range(12)}
